@@ -50,7 +50,7 @@ def desc_decides(tag, body):
 
 
 def desc_theorem(tag):
-    return {14: "C20_max_bitrate", 10: "C20_iso639", 127: "C20_ttml", 5: "C20_is_dovi_iff",
+    return {14: "C20_max_bitrate", 10: "C20_iso639_any_tail", 127: "C20_ttml", 5: "C20_is_dovi_iff",
             176: "C20_dv_codec"}.get(tag, "C20_wrong_tag_neutral")
 
 
@@ -65,7 +65,8 @@ def esq_case(descs, kind):
     first = next((b for t, b in descs if t == 14), None)
     d = first is None or (len(first) >= 3 and first[0] & 0x20 == 0)
     line = "st.esq " + wire([[t, b] for t, b in descs])
-    return Case(line, kind=kind if d else kind + "-malformed", decides=d, nontrivial=d, theorem="C20_stream_max_bit_rate")
+    return Case(line, kind=kind if d else kind + "-malformed", decides=d, nontrivial=d,
+                theorem="C20_stream_max_bit_rate" if first is not None else "C20_stream_ttml_iff / C20_stream_without_descriptor")
 
 
 def patterns(n, rng, nrand):
@@ -105,7 +106,8 @@ def gen(rng, tier):
             out.append(Case("st.pmtlags %s %d" % (wire([list(s) for s in streams]), q), kind=kind,
                             theorem="C20_pmt_lags_by_pid"))
     for q in (-1, 0, 8191, 8192, 65536 + 0x21, 2 ** 31 - 1):
-        out.append(Case("st.pmtlags [ [ 33 15 ] [ 34 129 ] ] %d" % q, kind="pmt-odd-pid", theorem="C20_pmt_lags_by_pid"))
+        out.append(Case("st.pmtlags [ [ 33 15 ] [ 34 129 ] ] %d" % q, kind="pmt-odd-pid",
+                        theorem="C20_pmt_lags_by_pid_negative" if q < 0 else "C20_pmt_lags_by_pid_absent"))
     out.append(Case("st.pmtlags [ ] 33", kind="pmt-empty", theorem="C20_pmt_lags_by_pid", nontrivial=False))
     # ---- 3. all tags x length classes x boundary patterns
     lens = LENS + ([16, 255] if thorough else [])
